@@ -162,9 +162,20 @@ pub fn run_stores(scs: &[Scenario]) -> bool {
         // a scenario that did not stop its store: stop it now (not part of the history's claims)
         ctx.log("HARNESS-CLEANUP".to_string());
         let t1 = Instant::now();
-        store.stop();
-        if t1.elapsed().as_millis() >= 2500 {
-            ctx.log("SLOWSTOP".to_string());
+        // on its own thread: a store that hangs must not hang the harness
+        let st2 = store.clone();
+        let stopper = std::thread::spawn(move || st2.stop());
+        while !stopper.is_finished() && t1.elapsed() < Duration::from_secs(8) {
+            std::thread::sleep(Duration::from_micros(500));
+        }
+        if !stopper.is_finished() {
+            ctx.log("CLEANUP-HUNG".to_string());
+            clean = false;
+        } else {
+            let _ = stopper.join();
+            if t1.elapsed().as_millis() >= 2500 {
+                ctx.log("SLOWSTOP".to_string());
+            }
         }
     }
     SLOW_CLONE_NS.store(0, Ordering::SeqCst);
@@ -307,9 +318,19 @@ pub fn run_pair(sa: &Scenario, sb: &Scenario) -> bool {
         for k in 0..2 {
             ctxs[k].log("HARNESS-CLEANUP".to_string());
             let t1 = Instant::now();
-            stores[k].stop();
-            if t1.elapsed().as_millis() >= 2500 {
-                ctxs[k].log("SLOWSTOP".to_string());
+            let st2 = stores[k].clone();
+            let stopper = std::thread::spawn(move || st2.stop());
+            while !stopper.is_finished() && t1.elapsed() < Duration::from_secs(8) {
+                std::thread::sleep(Duration::from_micros(500));
+            }
+            if !stopper.is_finished() {
+                ctxs[k].log("CLEANUP-HUNG".to_string());
+                clean = false;
+            } else {
+                let _ = stopper.join();
+                if t1.elapsed().as_millis() >= 2500 {
+                    ctxs[k].log("SLOWSTOP".to_string());
+                }
             }
         }
     }
